@@ -218,6 +218,28 @@ func healthy(r *vgen.Rng, chain string, kind string) Dep {
 	return d
 }
 
+// elsewhere: a healthy deposit for a destination other than the one the poisoned deposit names.
+func elsewhere(r *vgen.Rng, chain string, bad Dep) Dep {
+	avoid := bad.Dest
+	if chain == "btc" { // the destination is what follows the '_' of the OP_RETURN data, if it is a number
+		avoid = 2
+		if script, err := hex.DecodeString(bad.Data); err == nil && len(script) >= 2 {
+			if m := regexp.MustCompile(`_([0-9]{1,3})$`).FindStringSubmatch(string(script[2:])); m != nil {
+				if v, err := strconv.ParseUint(m[1], 10, 8); err == nil {
+					avoid = uint8(v)
+				}
+			}
+		}
+	}
+	for {
+		d := healthy(r, chain, "")
+		dest := d.Dest
+		if dest != avoid {
+			return d
+		}
+	}
+}
+
 // ---- the poison catalogue -------------------------------------------------------------------------------
 
 var hostileWords = func() []*big.Int {
@@ -408,6 +430,38 @@ func gen(r *vgen.Rng, tier string) []Case {
 					} else {
 						ds = append(ds, healthy(r, p.chain, ""))
 					}
+				}
+				out = append(out, Case{Path: p.name, Events: []Event{{Deps: ds}}})
+			}
+			// 1b. the poison ALONE at its destination (every deposit the range holds for that destination
+			// is malformed), among healthy deposits for other destinations - and two of the same poison
+			lonePos := r.Intn(4)
+			for pos := 0; pos < 4; pos++ {
+				if tier != "thorough" && pos != lonePos {
+					continue
+				}
+				ds := []Dep{}
+				for i := 0; i < 4; i++ {
+					if i == pos || (i == (pos+2)%4 && r.Chance(1, 3)) {
+						ds = append(ds, bad)
+					} else {
+						ds = append(ds, elsewhere(r, p.chain, bad))
+					}
+				}
+				out = append(out, Case{Path: p.name, Events: []Event{{Deps: ds}}})
+			}
+		}
+		// 1c. nothing but poison: every destination of the range has only malformed deposits
+		{
+			cat := poisons(r, p.chain)
+			for k := 0; k < 12; k++ {
+				ds := []Dep{}
+				for i, n := 0, r.Range(1, 4); i < n; i++ {
+					d := vgen.Pick(r, cat)
+					if p.chain != "btc" {
+						d.Dest = uint8(vgen.Pick(r, []int{2, 3, 4, 200}))
+					}
+					ds = append(ds, d)
 				}
 				out = append(out, Case{Path: p.name, Events: []Event{{Deps: ds}}})
 			}
